@@ -230,6 +230,14 @@ def soloStep (env : Env) (cell0 : Nat → Nat) (opts0 : Nat → Option Nat) (a :
 def soloRun (env : Env) (cell0 : Nat → Nat) (opts0 : Nat → Option Nat) (acts : List Act) : Solo :=
   acts.foldl (fun s a => soloStep env cell0 opts0 a s) initSolo
 
+/-- scheduled steps an action needs at most when its thread is never blocked (`Do`: claim, every closure step, finish, pass) -/
+def actCost (env : Env) : Act → Nat
+  | .onceDo o => closureLen env o + 3
+  | _ => 1
+
+/-- enough scheduled steps for the program run alone from any state -/
+def soloFuel (env : Env) (prog : List Act) : Nat := (prog.map (actCost env)).sum
+
 /-! ### well-formed programs: the guards the inventory obligations establish for the real entry points -/
 
 structure WfSt where
